@@ -16,6 +16,47 @@ def real_modules():
     return cr, cu, tr, ie
 
 
+_PRISTINE = None
+_MUTABLE = (dict, list, set)
+
+
+def _state_of(mod):
+    import copy
+    out = {}
+    for k, v in vars(mod).items():
+        if k.startswith('__') or isinstance(v, type) or callable(v):
+            continue
+        if isinstance(v, _MUTABLE) or type(v).__name__ in ('Counter', 'defaultdict', 'deque', 'OrderedDict'):
+            try:
+                out[k] = copy.deepcopy(v)
+            except Exception:
+                pass
+    return out
+
+
+def snapshot_state(mods):
+    return [(m, _state_of(m)) for m in mods]
+
+
+def restore_state(snap):
+    import copy
+    for m, st in snap:
+        for k, v in st.items():
+            setattr(m, k, copy.deepcopy(v))
+
+
+def fresh_state():
+    """module-level state of the ranking modules as right after import (a fresh process): EVERY mutable module-level container,
+    whatever its name, so that state a change introduces is reset between runs as well"""
+    global _PRISTINE
+    cr, cu, tr, ie = real_modules()
+    import outrank.feature_transformations.ranking_transformers as rt
+    import outrank.algorithms.feature_ranking.ranking_cov_alignment as rc
+    if _PRISTINE is None:
+        _PRISTINE = snapshot_state([cr, cu, ie, rt, rc])
+    restore_state(_PRISTINE)
+
+
 def cli_args(argv):
     """arguments exactly as the real command-line parser produces them (outrank/__main__.py)"""
     loader.use_repo_on_syspath()
